@@ -82,7 +82,7 @@ def prune(d):
 def norm_path(path):
     out = []
     for s in path:
-        if s == '..' and out:
+        if s == '..' and out and out[-1] != '..':
             out.pop()
         else:
             out.append(s)
